@@ -18,7 +18,7 @@ table = (f"{n} seeded changes are kept ({hit} of them are reported by the check 
          f"every one is reported by at least one check). Round r1: the agent got the property text only; round r2: additionally asked "
          f"to put at least one change outside the functions the property names; round r3: one feature addition (new option / input form / "
          f"API) with a slip, and one change made of two cooperating edits in different files, each harmless alone; round r4: a performance optimisation and a robustness/leniency "improvement"; round r5: a classic Python pitfall and a "
-         f"data-only edit; round r6: a wrong-variable / argument-order / off-by-one slip and a condition slip; round r7: an idiom migration with different semantics and a change of when / how often something is evaluated. `fires` lists every quick check that exits 1 on the "
+         f"data-only edit; round r6: a wrong-variable / argument-order / off-by-one slip and a condition slip; round r7: an idiom migration with different semantics and a change of when / how often something is evaluated; round r8: a large refactoring commit with one hidden slip and a change confined to shared definitions. `fires` lists every quick check that exits 1 on the "
          f"patched tree.\n\n"
          "| id | round | change | needs to manifest | checks that fire | target check fires |\n|---|---|---|---|---|---|\n" + "\n".join(rows) + "\n")
 s = open("/verif/DESIGN.md").read()
